@@ -55,6 +55,11 @@ class Report:
     def fail(self, rid, key, site, function="", why="", detail=None):
         r = self.rules[rid]
         r["instances"] += 1
+        try:
+            from . import facts as _F
+            why = (why or "") + _F.legend_for(function or key.split("|")[0], "%s %s" % (key, why))
+        except Exception:   # the legend is a reading aid only
+            pass
         o = {"rule": rid, "instance": key, "site": site, "function": function,
              "verdict": "VIOLATED", "why": why, **({"detail": detail} if detail else {})}
         self.obls.append(o)
